@@ -40,8 +40,13 @@ def _case(draw):
     members = []
     for i in range(n):
         scan = draw(progs.scans(table))
-        prog = draw(progs.programs(table, kinds=("b", "b", "b", "assign", "when", "se", "print"), max_comps=4, depth=2))
-        members.append({"prog": prog, "scan": scan, "id": f"m{i}"})
+        prog = draw(progs.programs(table, kinds=("b", "b", "b", "assign", "when", "se", "print", "last"), max_comps=4, depth=2))
+        modes = []
+        if draw(st.integers(0, 4)) == 2:
+            modes.append("return-mode: no-matches")
+        if draw(st.integers(0, 5)) == 3:
+            modes.append("unmatched-mode: keep")
+        members.append({"prog": prog, "scan": scan, "id": f"m{i}", "modes": modes})
     order = draw(st.permutations(list(range(n))))
     members = [members[i] for i in order]
     return {"table": table, "members": members, "if_all_agree": draw(st.booleans())}
@@ -52,7 +57,7 @@ def strategy(tier):
 
 
 def member_text(m, filename=""):
-    meta = f"~ id: {m['id']}" + (" logic-mode: OR" if m["prog"].get("mode") == "OR" else "") + " ~ "
+    meta = f"~ id: {m['id']}" + (" logic-mode: OR" if m["prog"].get("mode") == "OR" else "") + "".join(" " + x for x in m.get("modes", [])) + " ~ "
     return common.text_of(m["prog"], filename, m["scan"], comment=meta)
 
 
